@@ -542,6 +542,10 @@ def real_bytes(vals):
 
 
 # ================================================================ B. DemoStorage
+class OutOfDrawsB(Exception):
+    pass
+
+
 class SeededDraws:
     """stands in for `random` in ZODB.DemoStorage: scripted draws first, then a seeded generator"""
 
@@ -578,15 +582,36 @@ def run_demo_case(rng, tmp, idx):
     def nexttid():
         k[0] += 1
         return tid_of(k[0])
-    mk = lambda kind, name: MappingStorage() if kind == 'mapping' else FileStorage(os.path.join(d, name), create=True)  # noqa: E731
-    bk, ck = rng.choice(['mapping', 'file']), rng.choice(['mapping', 'file', None])
+    def mk(kind, name):
+        from ZODB.tests.hexstorage import HexStorage
+        p = os.path.join(d, name)
+        return {'mapping': MappingStorage, 'file': lambda: FileStorage(p, create=True),
+                'blobfile': lambda: FileStorage(p, create=True, blob_dir=p + '.blobs'),
+                'hexfile': lambda: HexStorage(FileStorage(p, create=True)),
+                'hexmapping': lambda: HexStorage(MappingStorage())}[kind]()
+    bk = rng.choice(['mapping', 'file', 'blobfile', 'hexfile', 'hexmapping'])
+    ck = rng.choice(['mapping', 'file', 'hexfile', None, None, 'cfg'])
     base = mk(bk, 'base.fs')
     base_oids = sorted({rng.choice([1, 2, 3, 50, 51, 52, 2 ** 40, 2 ** 62 - 1, rng.randrange(1, 2 ** 62)])
                         for _ in range(rng.choice([1, 3, 6]))})
     commit(base, nexttid(), [(o, z64, 1) for o in base_oids])
     log.append('base %s oids=%s' % (bk, base_oids))
     draws.queue = [rng.choice(base_oids + [777])]
-    demo = DemoStorage(base=base, changes=(mk(ck, 'changes.fs') if ck else None))
+    if ck == 'cfg' and bk in ('file', 'blobfile'):
+        # the whole stack from a configuration section over the closed and reopened base file
+        from ZODB.config import storageFromString
+        base.close()
+        demo = storageFromString(
+            '<demostorage>\n <filestorage base>\n path %s\n%s </filestorage>\n <mappingstorage changes/>\n'
+            '</demostorage>' % (os.path.join(d, 'base.fs'),
+                                (' blob-dir %s\n' % (os.path.join(d, 'base.fs') + '.blobs')) if bk == 'blobfile' else ''))
+    else:
+        demo = DemoStorage(base=base, changes=(mk(ck, 'changes.fs') if ck not in (None, 'cfg') else None))
+    # a second demo storage alive in the same process, over its own base, used in between
+    sib_base = MappingStorage()
+    commit(sib_base, tid_of(1), [(o, z64, 1) for o in base_oids[:2]])
+    draws.queue = [rng.choice(base_oids + [778])]
+    sibling = DemoStorage(base=sib_base)
     stack = [demo]
     issued = {id(demo): set()}
     bad = None
@@ -597,6 +622,18 @@ def run_demo_case(rng, tmp, idx):
         for _ in range(rng.choice([8, 16, 30])):
             top = stack[-1]
             r = rng.random()
+            if rng.random() < 0.2:
+                try:
+                    so = sibling.new_oid()
+                    if rng.random() < 0.5:
+                        st_ = TransactionMetaData()
+                        sibling.tpc_begin(st_)
+                        sibling.store(so, z64, pickle_refs(1, []), '', st_)
+                        sibling.tpc_vote(st_)
+                        sibling.tpc_finish(st_)
+                    log.append('sibling')
+                except OutOfDrawsB:
+                    pass
             if getattr(top, '_temporary_changes', False) and rng.random() < 0.25:
                 # the first blob operation makes implicit changes blob-capable (_blobify): the ids handed
                 # out so far must stay issued
@@ -664,7 +701,7 @@ def run_demo_case(rng, tmp, idx):
                     stack.pop().pop()
                     log.append('pop')
     finally:
-        for s in reversed(stack):
+        for s in reversed(stack + [sibling]):
             try:
                 s.close()
             except Exception:
@@ -767,6 +804,12 @@ def run_conn_case(rng, tmp, idx):
         present = present_oids(st)
         n = 0
 
+        def commit1():
+            try:
+                tm.commit()
+            except POSException.ConflictError:       # the other connection changed the root in between
+                tm.abort()
+
         def check(where):
             nonlocal seen, bad
             for oid in lg.log[seen:]:
@@ -781,92 +824,98 @@ def run_conn_case(rng, tmp, idx):
             r = rng.random()
             n += 1
             root = conn.root()
-            if r < 0.22:
-                o = MinPO(n)
-                root['k%d' % rng.randrange(6)] = o
-                if rng.random() < 0.5:
-                    conn.add(o)                     # Connection.add -> new_oid right away
-                steps.append('add')
-            elif r < 0.26:
-                conn.new_oid()                      # an id taken directly (never stored)
-                steps.append('new_oid')
-            elif r < 0.32:
-                # the other connection adds and commits in between
-                tm2.begin()
-                o2 = MinPO(n)
-                conn2.root()['c2-%d' % rng.randrange(4)] = o2
-                conn2.add(o2)
-                check('conn2-add')
-                try:
-                    tm2.commit()
-                except POSException.ConflictError:
-                    tm2.abort()
-                check('conn2-commit')
-                present = present_oids(st)
-                steps.append('conn2')
-            elif r < 0.37 and blobs:
-                from ZODB.blob import Blob
-                b = Blob()
-                with b.open('w') as f:
-                    f.write(b'blob %d' % n)
-                root['blob%d' % rng.randrange(3)] = b   # the storage's first blob operations happen here
-                steps.append('blob')
-            elif r < 0.45:
-                root['k%d' % rng.randrange(6)] = MinPO(MinPO(n))
-                sp = tm.savepoint()                 # ids issued while a savepoint (TmpStore) is active
-                o = MinPO(n)
-                root['s%d' % rng.randrange(3)] = o
-                if rng.random() < 0.5:
-                    conn.add(o)
-                if exported[0] is not None and rng.random() < 0.5:
-                    import io                       # importFile inside the transaction, after a savepoint
-                    root['simp%d' % rng.randrange(3)] = conn.importFile(io.BytesIO(exported[0]))
-                    check('import-after-savepoint')
-                tm.savepoint()
-                if rng.random() < 0.5:
-                    sp.rollback()
-                steps.append('savepoint')
-            elif r < 0.65:
-                tm.commit()
-                check('commit')                     # ids are judged against what was present when issued
-                present = present_oids(st)
-                steps.append('commit')
-            elif r < 0.75:
-                tm.abort()
-                steps.append('abort')
-            elif r < 0.88:
-                tm.commit()
-                check('commit')
-                present = present_oids(st)
-                keys = [k for k in root.keys()]
-                if keys:
-                    import io
-                    f = io.BytesIO()
-                    conn.exportFile(root[rng.choice(keys)]._p_oid, f)
-                    exported[0] = f.getvalue()
-                    f.seek(0)
-                    root['imp%d' % rng.randrange(3)] = conn.importFile(f)   # import path: new ids
-                    check('import')
-                    tm.commit()
+            try:
+                if r < 0.22:
+                    o = MinPO(n)
+                    root['k%d' % rng.randrange(6)] = o
+                    if rng.random() < 0.5:
+                        conn.add(o)                     # Connection.add -> new_oid right away
+                    steps.append('add')
+                elif r < 0.26:
+                    conn.new_oid()                      # an id taken directly (never stored)
+                    steps.append('new_oid')
+                elif r < 0.32:
+                    # the other connection adds and commits in between
+                    tm2.begin()
+                    o2 = MinPO(n)
+                    conn2.root()['c2-%d' % rng.randrange(4)] = o2
+                    conn2.add(o2)
+                    check('conn2-add')
+                    try:
+                        tm2.commit()
+                    except POSException.ConflictError:
+                        tm2.abort()
+                    check('conn2-commit')
+                    present = present_oids(st)
+                    steps.append('conn2')
+                elif r < 0.37 and blobs:
+                    from ZODB.blob import Blob
+                    b = Blob()
+                    with b.open('w') as f:
+                        f.write(b'blob %d' % n)
+                    root['blob%d' % rng.randrange(3)] = b   # the storage's first blob operations happen here
+                    steps.append('blob')
+                elif r < 0.45:
+                    root['k%d' % rng.randrange(6)] = MinPO(MinPO(n))
+                    sp = tm.savepoint()                 # ids issued while a savepoint (TmpStore) is active
+                    o = MinPO(n)
+                    root['s%d' % rng.randrange(3)] = o
+                    if rng.random() < 0.5:
+                        conn.add(o)
+                    if exported[0] is not None and rng.random() < 0.5:
+                        import io                       # importFile inside the transaction, after a savepoint
+                        root['simp%d' % rng.randrange(3)] = conn.importFile(io.BytesIO(exported[0]))
+                        check('import-after-savepoint')
+                    tm.savepoint()
+                    if rng.random() < 0.5:
+                        sp.rollback()
+                    steps.append('savepoint')
+                elif r < 0.65:
+                    commit1()
+                    check('commit')                     # ids are judged against what was present when issued
+                    present = present_oids(st)
+                    steps.append('commit')
+                elif r < 0.75:
+                    tm.abort()
+                    steps.append('abort')
+                elif r < 0.88:
+                    commit1()
                     check('commit')
-                present = present_oids(st)
-                steps.append('export-import')
-            elif file_like:
+                    present = present_oids(st)
+                    keys = [k for k in root.keys()]
+                    if keys:
+                        import io
+                        f = io.BytesIO()
+                        conn.exportFile(root[rng.choice(keys)]._p_oid, f)
+                        exported[0] = f.getvalue()
+                        f.seek(0)
+                        root['imp%d' % rng.randrange(3)] = conn.importFile(f)   # import path: new ids
+                        check('import')
+                        commit1()
+                        check('commit')
+                    present = present_oids(st)
+                    steps.append('export-import')
+                elif file_like:
+                    tm.abort()
+                    tm2.abort()
+                    conn.close()
+                    conn2.close()
+                    db.close()
+                    exported[0] = None
+                    st = make()
+                    lg = LoggedNewOid(st)
+                    seen = 0
+                    issued = set()
+                    present = present_oids(st)
+                    db = ZODB.DB(st)
+                    conn = db.open(tm)
+                    conn2 = db.open(tm2)
+                    steps.append('reopen')
+            except POSException.ConflictError:
+                # the two connections touched the same object: not this check's business
                 tm.abort()
                 tm2.abort()
-                conn.close()
-                conn2.close()
-                db.close()
-                exported[0] = None
-                st = make()
-                lg = LoggedNewOid(st)
-                seen = 0
-                issued = set()
-                present = present_oids(st)
-                db = ZODB.DB(st)
-                conn = db.open(tm)
-                conn2 = db.open(tm2)
-                steps.append('reopen')
+                steps.append('conflict')
             check(steps[-1] if steps else '')
             if bad:
                 break
@@ -977,18 +1026,27 @@ def run_sched_case(rng, tmp, idx, kind, nthreads, per, seed, schedule=None):
     return bad, dict(kind=kind, threads=nthreads, per=per, seed=seed, schedule=res['decisions']), len(res['decisions'])
 
 
-def probe_store_race(kind, tmp):
-    """directed: the committer is suspended at the n-th line of store()/set_max_oid() (n = 1, 2, ...) while an
-    allocator thread makes three new_oid calls (if it is blocked by the storage lock the committer goes on
-    after a short wait); the record stored has an oid two above the counter.  [P] the allocator never receives
-    an id twice, nor -- after store() has returned -- the stored oid."""
+def probe_store_race(kind, tmp, op='store', whole_commit=False):
+    """directed: the committer is suspended at the n-th line (n = 1, 2, ...) of store()/restore()/set_max_oid()
+    -- with whole_commit also of tpc_vote()/tpc_finish()/_finish() -- while an allocator thread makes three
+    new_oid calls (if it is blocked by the storage lock the committer goes on after a short wait); the record
+    has an oid two above the counter.  [P] the allocator never receives an id twice, nor -- after store() has
+    returned -- the stored oid."""
+    import ZODB.blob
+    from ZODB.tests.hexstorage import HexStorage
     d = os.path.join(tmp, 'sr')
     bad = None
     points = 0
-    for n in range(1, 80):
+    names = ('store', 'restore', 'set_max_oid') + (
+        ('tpc_vote', 'tpc_finish', '_finish', '_finish_finish') if whole_commit else ())
+    for n in range(1, 140):
         shutil.rmtree(d, ignore_errors=True)
         os.makedirs(d)
-        st = FileStorage(os.path.join(d, 's.fs'), create=True) if kind == 'file' else MappingStorage()
+        p = os.path.join(d, 's.fs')
+        st = {'file': lambda: FileStorage(p, create=True), 'mapping': MappingStorage,
+              'hexfile': lambda: HexStorage(FileStorage(p, create=True)),
+              'hexmapping': lambda: HexStorage(MappingStorage()),
+              'blobwrap': lambda: ZODB.blob.BlobStorage(p + '.b', FileStorage(p, create=True))}[kind]()
         got = [u64(st.new_oid()) for _ in range(5)]
         o = max(got) + 2
         go, done = threading.Event(), threading.Event()
@@ -1007,12 +1065,11 @@ def probe_store_race(kind, tmp):
                 if hit[0] == n:
                     hit[1] = True
                     go.set()
-                    done.wait(0.05)
+                    done.wait(0.03)
             return local
 
         def tracer(frame, event, arg):
-            if event == 'call' and frame.f_code.co_name in ('store', 'set_max_oid') \
-                    and '/ZODB/' in frame.f_code.co_filename:
+            if event == 'call' and frame.f_code.co_name in names and '/ZODB/' in frame.f_code.co_filename:
                 return local
             return None
         th = threading.Thread(target=allocator)
@@ -1021,26 +1078,90 @@ def probe_store_race(kind, tmp):
         st.tpc_begin(t, tid_of(1))
         sys.settrace(tracer)
         try:
-            st.store(p64(o), z64, pickle_refs(1, []), '', t)
+            if op == 'restore':
+                st.restore(p64(o), tid_of(1), pickle_refs(1, []), '', None, t)
+            else:
+                st.store(p64(o), z64, pickle_refs(1, []), '', t)
+            before_return = list(after)
+            st.tpc_vote(t)
+            st.tpc_finish(t)
         finally:
             sys.settrace(None)
-        before_return = list(after)
         go.set()
         th.join(10)
-        st.tpc_vote(t)
-        st.tpc_finish(t)
         later = [u64(st.new_oid()) for _ in range(3)]
         st.close()
         ids = got + after + later
         if len(set(ids)) != len(ids):
-            bad = ('%s: store(oid %d) suspended at its line %d while another thread allocated: ids %s were handed '
-                   'out twice (%s)' % (kind, o, n, sorted({x for x in ids if ids.count(x) > 1}), ids))
+            bad = ('%s: %s(oid %d) / commit suspended at traced line %d while another thread allocated: ids %s were '
+                   'handed out twice (%s)' % (kind, op, o, n, sorted({x for x in ids if ids.count(x) > 1}), ids))
         elif o in after[len(before_return):] + later:
             bad = '%s: id %d was handed out after a record with that oid had been stored' % (kind, o)
         if bad or not hit[1]:
             break
         points += 1
     shutil.rmtree(d, ignore_errors=True)
+    return bad, points
+
+
+def probe_demo_commit_lines(tmp):
+    """directed: client A commits an object under an id X it was issued; it is suspended at every line of
+    DemoStorage.store/tpc_vote/tpc_finish and of the changes storage's tpc_finish in turn while client B calls
+    new_oid() and its re-draw proposes X: X is always either still issued or already loadable."""
+    bad = None
+    points = 0
+    for n in range(1, 120):
+        draws = SeededDraws(5)
+        DEMO_MODULE.random = draws
+        base = MappingStorage()
+        commit(base, tid_of(1), [(101, z64, 1)])
+        draws.queue = [100]
+        demo = DemoStorage(base=base, changes=MappingStorage())
+        x = u64(demo.new_oid())
+        got = []
+        go, done = threading.Event(), threading.Event()
+        hit = [0, False]
+
+        def client_b():
+            go.wait(10)
+            draws.queue = [x, 8000]
+            got.append(u64(demo.new_oid()))
+            done.set()
+
+        def local(frame, event, arg):
+            if event == 'line':
+                hit[0] += 1
+                if hit[0] == n:
+                    hit[1] = True
+                    go.set()
+                    done.wait(0.03)
+            return local
+
+        def tracer(frame, event, arg):
+            if event == 'call' and frame.f_code.co_name in ('store', 'tpc_vote', 'tpc_finish') \
+                    and '/ZODB/' in frame.f_code.co_filename:
+                return local
+            return None
+        th = threading.Thread(target=client_b)
+        th.start()
+        t = TransactionMetaData()
+        demo.tpc_begin(t, tid_of(3))
+        sys.settrace(tracer)
+        try:
+            demo.store(p64(x), z64, pickle_refs(1, []), '', t)
+            demo.tpc_vote(t)
+            demo.tpc_finish(t)
+        finally:
+            sys.settrace(None)
+        go.set()
+        th.join(10)
+        demo.close()
+        if got and got[0] == x:
+            bad = ('DemoStorage: id %d, issued to client A and being committed (suspended at traced line %d of its '
+                   'store/vote/finish), was handed to client B by new_oid()' % (x, n))
+        if bad or not hit[1]:
+            break
+        points += 1
     return bad, points
 
 
@@ -1332,13 +1453,21 @@ def main(argv=None):
         if bad:
             ck.violation('C20:%s-concurrent-new-oid' % kind, bad, dict(section='D', **info))
     if only is None or only == 'D-probes':
-        for kind in ('file', 'mapping'):
-            bad, points = probe_store_race(kind, ck.tmp)
-            ck.count('D:store-race-suspension-points:' + kind, points)
-            ck.case(['D-store-race', kind, points], True, None)
+        for kind, op, whole in (('file', 'store', True), ('mapping', 'store', True), ('file', 'restore', False),
+                                ('hexfile', 'store', False), ('hexmapping', 'store', False),
+                                ('blobwrap', 'restore', False)):
+            bad, points = probe_store_race(kind, ck.tmp, op, whole)
+            ck.count('D:store-race-suspension-points:%s:%s' % (kind, op), points)
+            ck.case(['D-store-race', kind, op, points], True, None)
             if bad:
-                ck.violation('C20:%s-concurrent-new-oid' % kind, 'store vs allocator: ' + bad,
+                ck.violation('C20:%s-concurrent-new-oid' % ('mapping' if 'mapping' in kind else 'file'),
+                             'store vs allocator: ' + bad,
                              dict(section='D-probes', probe='store-race', kind=kind))
+        bad, points = probe_demo_commit_lines(ck.tmp)
+        ck.count('D:demo-commit-suspension-points', points)
+        ck.case(['D-demo-commit-lines', points], True, None)
+        if bad:
+            ck.violation('C20:demo-concurrent-new-oid', bad, dict(section='D-probes', probe='demo-commit-lines'))
         bad = probe_blobify_keeps_issued(ck.tmp)
         ck.count('probe:blobify-keeps-issued')
         ck.case(['probe-blobify'], True, None)
@@ -1373,6 +1502,11 @@ def main(argv=None):
              'draws; C: Connection programs (add, savepoint, rollback, import, reopen); D: scheduler runs with '
              'line-granular preemption inside new_oid/set_max_oid/store (each schedule distinct); distinct by hash',
         assumptions=[
+            'ORACLE-ONLY sections (real code vs the freshness oracle, not the Lean counter model): B DemoStorage '
+            'histories, C Connection programs, D scheduler runs / directed line-level probes / plain threads; section A '
+            'is compared with the model (Drivers/Oid.lean) on every storage variant: FileStorage plain / blob_dir / '
+            'BlobStorage proxy / HexStorage / ZODB.config-built, MappingStorage plain / HexStorage / config / '
+            'BlobStorage proxy; half of the generated histories run as interleaved pairs of live storages',
             'every storage operation is one critical section of the storage lock (checked in D with line-granular '
             'preemption: a new_oid that does not hold the lock produces duplicates there)',
             'oids are 8-byte strings; comparison of 8-byte strings is numeric comparison',
